@@ -393,8 +393,10 @@ class CT1:
             slot[d] = body[:-1]
 
     # ---- bodies ----
-    def body(self, msg: sg.T, name: str, enc: bool) -> str:
-        """Coq term of type cbody for Encode<name> / Decode<name>."""
+    def body(self, msg: sg.T, name: str, enc: bool, lit=None) -> str:
+        """Coq term of type cbody for Encode<name> / Decode<name>.  lit(list of statement terms) may
+        intern a statement list (e.g. as a named Definition) and return the term to use for it."""
+        mk = lit or clist
         f = self.funcs.get(_norm(name))
         if f is None or ("enc" if enc else "dec") not in f:
             raise T1Error(f"C: no {'Encode' if enc else 'Decode'} function for message {name}")
@@ -408,8 +410,8 @@ class CT1:
                 raise T1Error(f"C: {name}: preprocessor skeleton is not #ifndef BP_BIG_ENDIAN / #else / #endif")
             le = [self.stmt(msg, l, enc) for l in lines[a + 1:b]]
             be = [self.stmt(msg, l, enc) for l in lines[b + 1:c]]
-            return f"(BIfndef {clist(le)} {clist(be)})"
-        return f"(BPlain {clist(self.stmt(msg, l, enc) for l in lines)})"
+            return f"(BIfndef {mk(le)} {mk(be)})"
+        return f"(BPlain {mk([self.stmt(msg, l, enc) for l in lines])})"
 
     def _root(self, e: Any) -> bool:
         return e == ("deref", ("name", "m"))
@@ -682,11 +684,11 @@ class GoT1:
             raise T1Error(f"Go: {tname} is not a scalar type")
         return coq_cty(base)
 
-    def body(self, msg: sg.T, name: str, enc: bool) -> str:
+    def body(self, msg: sg.T, name: str, enc: bool, lit=None) -> str:
         f = self.funcs.get(_norm(name))
         if f is None or ("enc" if enc else "dec") not in f:
             raise T1Error(f"Go: no {'Encode' if enc else 'Decode'} method for message {name}")
-        return clist(self.stmt(msg, l, enc) for l in f["enc" if enc else "dec"])
+        return (lit or clist)([self.stmt(msg, l, enc) for l in f["enc" if enc else "dec"]])
 
     def stmt(self, msg: sg.T, line: str, enc: bool) -> str:
         try:
